@@ -10,6 +10,8 @@ Binders
      automaton; XPath mode: leftmost start + set of valid ends), replayed on RegularExpression under the option strings
      X, XF, XH, XFH, "", F, H, FH (+ unknown option letters), with and without a Match object, on the whole string and on
      a window of a padded string. Malformed texts and option strings must give ParseException.
+     Family C (RegexGen.C.quick.cfg): every range class [x-y]/[^x-y] over {-,1,a,b} under *, +, {1,} followed by every such class
+     (disjoint, shared end point, overlap, containment: the closure must give characters back) and every class of two ranges.
   P  the same lines through the xs:pattern facet of a string DatatypeValidator (the path schema validation takes).
   W  spec/RegexWalk.tla: one compiled object reused over a TLC-chosen sequence of matches / matches+Match / tokenize /
      replace calls (history independence); tokenize/replace results must be one of the cuts the specification allows.
@@ -24,6 +26,7 @@ Mutants (mutants/C11/*.diff), each run through the complete quick tier in a scra
                        greedy-first match is shorter than the string, i.e. exactly the class of the open known finding
                        C11-anchored-first-success, so the disagreements are filed under that finding (limit of the classification while
                        that defect is open; once it is fixed the mutant's cases become violations).
+  seeded/C11-a1        intersectRanges drops a shared end point (closure becomes possessive)  see mutants/C11/RESULTS.txt (family C)
 """
 import json
 import os
@@ -47,10 +50,10 @@ META = dict(
 )
 
 CONSTS = {
-    "quick": dict(check=["Regex.quick.cfg"], selfcheck="RegexGen.selfcheck.cfg", gens=["RegexGen.A.quick.cfg", "RegexGen.B.quick.cfg"],
+    "quick": dict(check=["Regex.quick.cfg"], selfcheck="RegexGen.selfcheck.cfg", gens=["RegexGen.A.quick.cfg", "RegexGen.B.quick.cfg", "RegexGen.C.quick.cfg"],
                   walks=[("RegexWalk.cfg", 60), ("RegexWalk.A.cfg", 30)], wdepth=14),
     "thorough": dict(check=["Regex.quick.cfg", "Regex.thorough.cfg"], selfcheck="RegexGen.selfcheck.cfg",
-                     gens=["RegexGen.A.thorough.cfg", "RegexGen.B.thorough.cfg"],
+                     gens=["RegexGen.A.thorough.cfg", "RegexGen.B.thorough.cfg", "RegexGen.C.quick.cfg"],
                      walks=[("RegexWalk.cfg", 600), ("RegexWalk.A.cfg", 300)], wdepth=14),
 }
 WORKERS = 8
